@@ -517,6 +517,12 @@ fn c02(ctx: &Ctx, rep: &mut Report) {
                             CopyMode::All(x) => CopyMode::All(x | 0o700),
                             CopyMode::Dirs(x) => CopyMode::Dirs(x | 0o700),
                             CopyMode::Files(x) => CopyMode::Files(x | 0o600),
+                            CopyMode::Then(a, b) => match b.effective() {
+                                CopyMode::All(x) => CopyMode::Then(a, Box::new(CopyMode::All(x | 0o700))),
+                                CopyMode::Dirs(x) => CopyMode::Then(a, Box::new(CopyMode::Dirs(x | 0o700))),
+                                CopyMode::Files(x) => CopyMode::Then(a, Box::new(CopyMode::Files(x | 0o600))),
+                                _ => CopyMode::None,
+                            },
                             x => x,
                         },
                         f,
